@@ -74,6 +74,13 @@ Theorem C12_syntax : forall key rest v,
 Proof. intros key rest v. split; [apply level_says_bare|split; [apply level_says_minus_one|apply entry_says_value]]. Qed.
 Print Assumptions C12_syntax.
 
+(** from file text to entry lists: a filterconf file of plain lines (non-empty, without blank, tab, '#', NUL; each
+    ended by LF) is loaded by lloadfilefd/loadlistfd as exactly these lines, in order; so [C12_combine] and
+    [C12_inherit] apply to such files with uc, dc, gc = their lines *)
+Theorem C12_plain_files : forall ls, Forall plain_line ls -> parse_conf (join_lines ls) = Some ls.
+Proof. exact parse_plain. Qed.
+Print Assumptions C12_plain_files.
+
 (** The checker that ./check runs on every observation made on the C code ([spec_ok_C12]: documented combination
     of the filter results, documented three-level value of the probed setting, man page's global marks, and the
     interface discipline "denied with message" = the filter has sent one 5xx itself), stated for every case of the
